@@ -113,7 +113,7 @@ Scale(cfg, want) ==
       [] cfg.k \in {"MyRSI", "HLNormalizer", "CorrelationTrendIndicator", "NoiseEliminationTechnology"} -> QInt(2)
       [] cfg.k = "Vsct" -> FToQ(FDiv(FFromInt(2 * (cfg.n - 1)), FSqrt(FFromInt(cfg.n))))      \* width of [-(N-1)/sqrt N, (N-1)/sqrt N]
       [] cfg.k \in {"BinaryEntropy", "LaguerreRSI", "Drawdown", "LnReturn"} -> QOne
-      [] cfg.k \in {"Vst", "Roc", "CenterOfGravity", "Cumulative"} -> QMax(mag, QAbs(want))
+      [] cfg.k \in {"Vst", "Roc", "CenterOfGravity"} -> QMax(mag, QAbs(want))
       [] OTHER -> mag
 (* tolerance factor: eps = [num, den], or epsp = k for 10^-k (TLC integers are 32-bit) *)
 Eps == IF "epsp" \in DOMAIN hd THEN QPow10Neg(hd.epsp) ELSE QFrac(hd.eps[1], hd.eps[2])
